@@ -33,6 +33,9 @@ def gen_lines(ctx):
         ids = sorted(rng.sample(LOW, rng.randrange(0, 4)) + rng.sample(HIGH, rng.randrange(0, 4)) + ([258] if rng.random() < 0.85 else []))
         if not ids:
             ids = [258]
+        if 258 in ids and rng.random() < 0.2:
+            # No-Response is not repeatable: a second occurrence is ignored (RFC 7252 section 5.4.5), the first one is the value
+            ids = sorted(ids + [258])
         ents = []
         for i in ids:
             if i == 258:
